@@ -251,7 +251,7 @@ def run(ctx):
             import copy
             from ..spec import gen_refinement, render_type
 
-            cands = [(c, i) for c in spec["classes"] if c["kind"] in ("data", "plain") for i, (fn, ft) in enumerate(c["fields"])
+            cands = [(c, i) for c in spec["classes"] if c["kind"] in ("data", "plain") and not c.get("inherit") for i, (fn, ft) in enumerate(c["fields"])
                      if fn.startswith("f") and (ft[1] if ft[0] == "ann" else ft)[0] in ("int", "float", "str", "bool") and not (ft[0] == "ann" and ft[2][0].startswith("Dependent"))]
             if cands:
                 c, i = cands[H.draw(len(cands))]
